@@ -788,9 +788,14 @@ impl<'cmd> Parser<'cmd> {
             );
         }
 
+        // An inferred argument must not shadow a long flag subcommand: the exact name of one wins,
+        // and one that shares the prefix makes the prefix ambiguous.
+        let mut ambiguous = false;
         let arg = if let Some(arg) = self.cmd.get_keymap().get(long_arg) {
             debug!("Parser::parse_long_arg: Found valid arg or flag '{arg}'");
             Some((long_arg, arg))
+        } else if self.cmd.find_long_subcmd(long_arg).is_some() {
+            None
         } else if self.cmd.is_infer_long_args_set() {
             let mut iter = self.cmd.get_arguments().filter_map(|a| {
                 if let Some(long) = a.get_long() {
@@ -803,7 +808,17 @@ impl<'cmd> Parser<'cmd> {
                     .find_map(|(alias, _)| alias.starts_with(long_arg).then(|| (alias.as_str(), a)))
             });
 
-            iter.next().filter(|_| iter.next().is_none())
+            let first = iter.next();
+            ambiguous = first.is_some()
+                && (iter.next().is_some()
+                    || (self.cmd.is_infer_subcommands_set()
+                        && self.cmd.get_subcommands().any(|sc| {
+                            sc.get_long_flag()
+                                .into_iter()
+                                .chain(sc.get_all_long_flag_aliases())
+                                .any(|long| long.starts_with(long_arg))
+                        })));
+            first.filter(|_| !ambiguous)
         } else {
             None
         };
@@ -853,7 +868,10 @@ impl<'cmd> Parser<'cmd> {
                     matcher,
                 )
             }
-        } else if let Some(sc_name) = self.possible_long_flag_subcommand(long_arg) {
+        } else if let Some(sc_name) = self
+            .possible_long_flag_subcommand(long_arg)
+            .filter(|_| !ambiguous)
+        {
             Ok(ParseResult::FlagSubCommand(sc_name.to_string()))
         } else if self
             .cmd
